@@ -337,15 +337,24 @@ pub enum SEv {
     PeerRst(usize),
     PeerEndData(usize),
     RespondEos(usize),
+    /// response head + one 2 KiB DATA frame with END_STREAM (large enough to be chained in the codec, not copied)
+    RespondBody(usize),
     ServerReset(usize),
     ServerDropAll(usize),
     ReadToEnd(usize),
     Drive,
+    /// the connection is polled while the transport accepts no octets (it still reads)
+    DriveBlocked,
 }
 
 pub struct SWorld {
     pub opened: Vec<u32>,
     pub peer_done: Vec<bool>,
+    /// streams the application has reset itself (send_reset): no longer active for it, whether or not the RST_STREAM has
+    /// reached the wire yet
+    pub app_reset: Vec<u32>,
+    /// streams whose response the application has completed (END_STREAM queued)
+    pub app_ended: Vec<u32>,
 }
 
 pub struct ServerConc {
@@ -362,6 +371,7 @@ impl ServerConc {
             ev.push(SEv::PeerRst(k));
             ev.push(SEv::PeerEndData(k));
             ev.push(SEv::RespondEos(k));
+            ev.push(SEv::RespondBody(k));
             ev.push(SEv::ServerReset(k));
             ev.push(SEv::ServerDropAll(k));
             if !quick {
@@ -369,13 +379,14 @@ impl ServerConc {
             }
         }
         ev.push(SEv::Drive);
+        ev.push(SEv::DriveBlocked);
         ServerConc { events: ev, name, limit }
     }
 }
 
 /// peer-initiated streams the application has been handed, still holds handles of, and that are not closed on the wire
 /// (a stream the peer has reset, or that has ended both ways, is no longer active even if handles linger)
-fn app_active(t: &T2) -> usize {
+fn app_active(t: &T2, w: &SWorld) -> usize {
     t.accepted
         .iter()
         .filter(|a| a.body.is_some() || a.respond.is_some() || a.send.is_some())
@@ -384,8 +395,8 @@ fn app_active(t: &T2) -> usize {
             let peer_rst = t.mon.frames.iter().any(|f| f.sender != t.role && matches!(&f.parsed, Ok(Parsed::RstStream { sid: s, .. }) if *s == sid));
             let subj_rst = !t.rst_sent(sid).is_empty();
             let peer_end = t.mon.frames.iter().any(|f| f.sender != t.role && f.raw.stream() == sid && matches!(&f.parsed, Ok(Parsed::Headers { eos: true, .. }) | Ok(Parsed::Data { eos: true, .. })));
-            let subj_end = t.subject_frames().iter().any(|f| f.raw.stream() == sid && matches!(&f.parsed, Ok(Parsed::Headers { eos: true, .. }) | Ok(Parsed::Data { eos: true, .. })));
-            !(peer_rst || subj_rst || (peer_end && subj_end))
+            let subj_end = w.app_ended.contains(&sid) || t.subject_frames().iter().any(|f| f.raw.stream() == sid && matches!(&f.parsed, Ok(Parsed::Headers { eos: true, .. }) | Ok(Parsed::Data { eos: true, .. })));
+            !(peer_rst || subj_rst || w.app_reset.contains(&sid) || (peer_end && subj_end))
         })
         .count()
 }
@@ -416,7 +427,7 @@ impl Model for ServerConc {
         T2Cfg { role: Side::Server, peer_settings: vec![], client: None, server: Some(sb), policy: IoPolicy::default() }
     }
     fn init(&self, _t: &mut T2) -> SWorld {
-        SWorld { opened: vec![], peer_done: vec![] }
+        SWorld { opened: vec![], peer_done: vec![], app_reset: vec![], app_ended: vec![] }
     }
     fn n_events(&self) -> usize {
         self.events.len()
@@ -434,10 +445,10 @@ impl Model for ServerConc {
             SEv::PeerOpen | SEv::PeerOpenEos => w.opened.len() < max_open,
             SEv::PeerRst(k) => *k < w.opened.len() && !w.peer_done[*k],
             SEv::PeerEndData(k) => *k < w.opened.len() && !w.peer_done[*k] && t.rst_sent(w.opened[*k]).is_empty(),
-            SEv::RespondEos(k) | SEv::ServerReset(k) => acc(*k).map(|a| a.respond.is_some()).unwrap_or(false),
+            SEv::RespondEos(k) | SEv::RespondBody(k) | SEv::ServerReset(k) => acc(*k).map(|a| a.respond.is_some()).unwrap_or(false),
             SEv::ServerDropAll(k) => acc(*k).map(|a| a.respond.is_some() || a.body.is_some() || a.send.is_some()).unwrap_or(false),
             SEv::ReadToEnd(k) => acc(*k).map(|a| a.body.is_some()).unwrap_or(false),
-            SEv::Drive => true,
+            SEv::Drive | SEv::DriveBlocked => true,
         }
     }
     fn apply(&self, t: &mut T2, w: &mut SWorld, e: usize) {
@@ -463,6 +474,19 @@ impl Model for ServerConc {
                 if let Some(a) = t.accepted.iter_mut().find(|a| a.sid == sid) {
                     if let Some(mut r) = a.respond.take() {
                         let _ = guarded(&mut panics, "send_response", || r.send_response(simple_response(200), true).map(|s| drop(s)));
+                        w.app_ended.push(sid);
+                    }
+                }
+            }
+            SEv::RespondBody(k) => {
+                let sid = w.opened[k];
+                if let Some(a) = t.accepted.iter_mut().find(|a| a.sid == sid) {
+                    if let Some(mut r) = a.respond.take() {
+                        if let Some(Ok(mut ss)) = guarded(&mut panics, "send_response", || r.send_response(simple_response(200), false)) {
+                            let _ = guarded(&mut panics, "send_data", || ss.send_data(bytes::Bytes::from(vec![0x42u8; 2048]), true));
+                            safe_drop(&mut panics, "SendStream", Some(ss));
+                            w.app_ended.push(sid);
+                        }
                     }
                 }
             }
@@ -471,6 +495,7 @@ impl Model for ServerConc {
                 if let Some(a) = t.accepted.iter_mut().find(|a| a.sid == sid) {
                     if let Some(mut r) = a.respond.take() {
                         guarded(&mut panics, "send_reset", || r.send_reset(h2::Reason::INTERNAL_ERROR));
+                        w.app_reset.push(sid);
                     }
                 }
             }
@@ -511,6 +536,11 @@ impl Model for ServerConc {
             SEv::Drive => {
                 t.drive(200);
             }
+            SEv::DriveBlocked => {
+                t.sh.lock().unwrap().set_write_blocked(t.role, true);
+                t.drive(200);
+                t.sh.lock().unwrap().set_write_blocked(t.role, false);
+            }
         }
         t.panics.extend(panics);
         t.catch_up();
@@ -518,7 +548,7 @@ impl Model for ServerConc {
     fn invariant(&self, t: &mut T2, w: &mut SWorld) -> V3 {
         let mut v = vec![];
         t.catch_up();
-        let active = app_active(t);
+        let active = app_active(t, w);
         if active > self.limit as usize {
             v.push(("C05.too-many-streams-surfaced".to_string(), "recv".into(), format!("the application holds {} unfinished peer-initiated streams, the advertised limit is {}", active, self.limit)));
         }
@@ -573,6 +603,7 @@ impl Model for ServerConc {
             let a = t.accepted.iter().find(|a| a.sid == sid);
             s.push_str(&format!("|{}:done={} acc={} body={} resp={} rst={:?}", sid, w.peer_done[k], a.is_some(), a.map(|a| a.body.is_some()).unwrap_or(false), a.map(|a| a.respond.is_some()).unwrap_or(false), t.rst_sent(sid)));
         }
+        s.push_str(&format!("|app_reset={:?} app_ended={:?}", w.app_reset, w.app_ended));
         s
     }
     fn teardown(&self, t: T2, _w: SWorld) -> Vec<String> {
